@@ -19,7 +19,7 @@ from mc import core
 ID = "C17"
 LEVEL = "model_checking"
 RULE = ("parameter sets: for each of the 8 operations every boolean flag setting x every optional parameter present/absent "
-        "(47 sets); tables: every table of 1-3 rows over trial_type in {a,b,n/a} x code in {1,2} x response_time in "
+        "(49 sets); tables: every table of 1-3 rows over trial_type in {a,b,n/a} x code in {1,2} x response_time in "
         "{0.3,n/a} with fixed increasing onsets and durations in {0.5,n/a} (+ for merge_consecutive every run pattern of 4-5 rows over {a,b}); operation lists: all single operations and all "
         "ordered pairs (thorough: triples over a 12-set subset); dispatcher histories: every sequence of <= 3 tables from 4 (one with an extra column) "
         "through one dispatcher.  state = (operation list, table); transition = one run_operations call; non-trivial = the "
@@ -213,6 +213,12 @@ def ref_apply(op, cols, rows):
         if "onset" not in cols or "duration" not in cols:
             raise Missing()
         a = p["anchor_column"]
+        # every column the operation names must be there, whether or not a row will use it
+        for spec in p["new_events"].values():
+            named = [x for x in spec["onset_source"] + spec["duration"] if isinstance(x, str)] + \
+                list(spec.get("copy_columns", []) or [])
+            if any(x not in cols for x in named):
+                raise Missing()
         if a not in cols:
             cols.append(a)
             for r in rows:
@@ -312,6 +318,12 @@ def parameter_sets():
                                   "late": {"onset_source": [0.7], "duration": ["duration", 0.1]}}))
         out.append(op("split_rows", anchor_column="marker", remove_parent_row=rp,
                       new_events={"m": {"onset_source": [0.25], "duration": [0]}}))
+        # new events that land exactly on the onset of the next row and on each other: rows of equal onset keep the order
+        # parent rows, then new events as listed
+        out.append(op("split_rows", anchor_column="marker", remove_parent_row=rp,
+                      new_events={"tie1": {"onset_source": [1.5], "duration": [0]},
+                                  "tie2": {"onset_source": [1.5], "duration": [0.1]},
+                                  "tie3": {"onset_source": [3.0], "duration": [0]}}))
     return out
 
 
